@@ -420,6 +420,7 @@ def base_generator_use(run, it):
 
     def h(ctx):
         n = ctx.choose(3, "n_chain") + 1
+        same_object = bool(ctx.choose(2, "same-initial-array-object-for-every-chain")) if n > 1 else False
         mod = it.module(MOD)
         ex = Exec(it, ctx, mod, mod.env, "harness")
         it.ext_modules["numpy"].ndarray = TypeTag("ndarray", lambda o: isinstance(o, Arr))
@@ -435,13 +436,15 @@ def base_generator_use(run, it):
 
         def mcmc_sample_chains(ex_, self_, n_w, n_m, init_states, **kw):
             seen["base_position"] = base.position
+            seen["states"] = list(init_states)
             cls = mod.resolve("MCMCSampleChainsOutputs", ex_.ctx)
             return ex_.call(cls, [list(init_states), None, {}], {})
         it.call_contracts["MarkovChainMonteCarloMethod.sample_chains"] = Native(mcmc_sample_chains, "MarkovChainMonteCarloMethod.sample_chains")
         try:
             cls = mod.resolve("HamiltonianMonteCarlo", ctx)
             hmc = ex.call(cls, [system, base, Opaque("integration_transition")], {})
-            ex.call(ex.getattr(hmc, "sample_chains"), [2, 3, [Arr() for _ in range(n)]], {})
+            one = Arr()
+            ex.call(ex.getattr(hmc, "sample_chains"), [2, 3, [one] * n if same_object else [Arr() for _ in range(n)]], {})
         except PyRaise as pr:
             ctx.run.ob(tag + "/no-exception", core.FAILED, "pyvc", detail=f"{exc_name(pr.exc)} {pr.exc.attrs.get('args')}")
             return
@@ -449,6 +452,14 @@ def base_generator_use(run, it):
             it.call_contracts.pop("MarkovChainMonteCarloMethod.sample_chains", None)
             it.overrides.pop((MOD, "IndependentMomentumTransition"), None)
             it.overrides.pop((MOD, "DualAveragingStepSizeAdapter"), None)
+        sts = seen.get("states", [])
+        okd = len(sts) == n and len({id(x) for x in sts}) == n
+        ctx.run.ob(tag + "/every-chain-gets-its-own-state-object", core.DISCHARGED if okd else core.FAILED, "pyvc",
+                   witness={"n_chain": n, "same_initial_array_object": same_object},
+                   detail="" if okd else f"{n} chains (initial states given as {'one array object repeated' if same_object else 'distinct arrays'}) are handed {len({id(x) for x in sts})} distinct "
+                   "state object(s): transitions update states in place, so in a sequential run a chain would start from what the previous chain left behind, while worker "
+                   "processes receive pristine pickled copies -- the output would depend on n_process",
+                   text="the chain states handed to the stage loop are pairwise distinct objects, also when the caller repeats one array / state object for all chains")
         pos = seen.get("base_position")
         ok = pos == 0
         ctx.run.ob(tag + "/per-chain-generators-derived-from-a-chain-count-independent-base-state", core.DISCHARGED if ok else core.FAILED, "pyvc",
@@ -456,7 +467,7 @@ def base_generator_use(run, it):
                    detail="" if ok else f"with {n} array initial states the base generator has made {pos} draws (one initial momentum per chain) before the per-chain "
                    "generators are derived from it by jumped()/spawn(): chain c's random stream, hence its whole trajectory, depends on how many chains are run",
                    text="the base generator state used to derive per-chain generators does not depend on the number of chains")
-    it.explore(h, "HamiltonianMonteCarlo.sample_chains", roots=[[0], [1], [2]])
+    it.explore(h, "HamiltonianMonteCarlo.sample_chains", roots=[[0], [1, 0], [1, 1], [2, 0], [2, 1]])
 
 
 def unseeded_sources(run):
